@@ -32,14 +32,18 @@ ELEMS = {
 # which element kinds an ndarray can hold (homogeneous dtype), and its dtype
 ARRAY_KINDS = {"half": np.float64, "float": np.float64, "int": np.int64, "negint": np.int64, "str": None, "object": object}
 
-SETTERS = ("Tag.position", "Tag.extent", "DataArray.polynom_coefficients", "Property.values")
+SETTERS = ("Tag.position", "Tag.extent", "DataArray.polynom_coefficients", "Property.values", "RangeDimension.ticks")
 
 
 def gen_case(rng):
     setter = rng.choice(SETTERS)
     prop = setter == "Property.values"
+    linked = False
     if prop:
         stored = [rng.randrange(-5, 9) for _ in range(rng.randrange(0, 5))]
+    elif setter == "RangeDimension.ticks":
+        linked = rng.random() < 0.35
+        stored = None if linked else sorted(rng.randrange(-8, 9) / 4.0 for _ in range(rng.randrange(1, 5)))
     else:
         stored = None if rng.random() < 0.2 else [rng.randrange(-8, 9) / 4.0 for _ in range(rng.randrange(1, 5))]
     shape = rng.choice(["none", "scalar", "list", "list", "tuple", "ndarray", "ndarray", "ndarray", "unsized", "nested-list",
@@ -65,7 +69,7 @@ def gen_case(rng):
         arg = {"shape": shape, "elems": [k] * 4}
     else:
         arg = {"shape": shape, "elems": []}
-    return {"setter": setter, "stored": stored, "arg": arg}
+    return {"setter": setter, "stored": stored, "arg": arg, "linked": linked}
 
 
 def _elem_json(kind, prop):
@@ -95,6 +99,8 @@ def model_op(case):
         arg = {"nested": [True, 2, es]}
     st = case["stored"]
     stored = None if st is None else [_frac_str(Fraction(x)) for x in st]
+    if case["setter"] == "RangeDimension.ticks":
+        return ["vec_ticks", stored, bool(case.get("linked")), arg]
     return ["vec_set", case["setter"], stored, 5, 9, arg]
 
 
@@ -136,6 +142,8 @@ class Scene:
         self.tag = b.create_tag("tg", "t", [0.0])
         s = self.f.create_section("s", "t")
         self.pr = s.create_property("p", [1, 2])
+        self.rd = self.da.append_range_dimension([1.0, 2.0])
+        self.dl = b.create_data_array("dl", "t", data=[5.0, 6.0, 7.0])
 
     def close(self):
         self.f.close()
@@ -157,7 +165,33 @@ class Scene:
         return [ds.ndim, [_frac_str(Fraction(float(x)) if not isinstance(x, (int, np.integer)) else Fraction(int(x)))
                           for x in np.asarray(ds[()]).ravel().tolist()]]
 
+    def run_ticks(self, case):
+        rd = self.rd
+        grp = rd._h5group.group                       # the state before: no ticks, no link, then valid assignments
+        for nm in ("ticks", "link"):
+            if nm in grp:
+                del grp[nm]
+        if case["stored"]:
+            rd.ticks = case["stored"]
+        if case.get("linked"):
+            rd.link_data_array(self.dl, [-1])
+        before = self.da.updated_at
+        try:
+            rd.ticks = concrete(case)
+            err = None
+        except Exception as e:      # noqa
+            err = type(e).__name__
+        grp = rd._h5group.group
+        ds = None
+        if "ticks" in grp:
+            d = grp["ticks"]
+            ds = [d.ndim, [_frac_str(Fraction(float(x))) for x in np.asarray(d[()]).ravel().tolist()]]
+        return {"ds": ds, "touched": self.da.updated_at != before, "refused": err is not None, "error": err,
+                "link": "link" in grp}
+
     def run(self, case):
+        if case["setter"] == "RangeDimension.ticks":
+            return self.run_ticks(case)
         obj, attr, stamped = self.target(case["setter"])
         setattr(obj, attr, None)                      # the state before: remove, then a valid assignment
         if case["stored"]:
@@ -176,8 +210,14 @@ def canon_model(out):
     if "ok" not in out:
         return out
     o = out["ok"]
-    return {"ds": o["ds"], "touched": o["stamp"] == 9, "refused": o["err"] is not None}
+    r = {"ds": o["ds"], "touched": o["stamp"] == 9, "refused": o["err"] is not None}
+    if "link" in o:
+        r["link"] = o["link"]
+    return r
 
 
 def canon_impl(out):
-    return {"ds": out["ds"], "touched": out["touched"], "refused": out["refused"]}
+    r = {"ds": out["ds"], "touched": out["touched"], "refused": out["refused"]}
+    if "link" in out:
+        r["link"] = out["link"]
+    return r
